@@ -129,6 +129,7 @@ struct Rewriter<'a, 'b> {
     seq: usize,
     tmp: usize,
     in_trait_impl: bool,
+    rename_self: bool,
 }
 
 fn norm_ws(s: &str) -> String {
@@ -137,7 +138,7 @@ fn norm_ws(s: &str) -> String {
 
 impl<'a, 'b> Rewriter<'a, 'b> {
     fn new(fx: &'b FileCtx<'a>) -> Self {
-        Rewriter { fx, edits: vec![], errors: vec![], loops: vec![], log: vec![], seq: 0, tmp: 0, in_trait_impl: false }
+        Rewriter { fx, edits: vec![], errors: vec![], loops: vec![], log: vec![], seq: 0, tmp: 0, in_trait_impl: false, rename_self: false }
     }
     fn edit(&mut self, lo: usize, hi: usize, text: String, rule: &'static str) {
         self.seq += 1;
@@ -685,6 +686,10 @@ impl<'a, 'b, 'ast> Visit<'ast> for Rewriter<'a, 'b> {
                 }
                 visit::visit_expr(self, &c.body);
             }
+            Expr::Path(p) if self.rename_self && p.path.is_ident("self") => {
+                let (lo, hi) = self.fx.rng(p.span());
+                self.edit(lo, hi, "self__m".to_string(), "R4");
+            }
             Expr::ForLoop(f) => self.rw_for(f),
             Expr::While(w) => {
                 let (wlo, _) = self.fx.rng(w.while_token.span());
@@ -776,6 +781,28 @@ impl<'a, 'b> Rewriter<'a, 'b> {
         self.visit_expr(&b.right);
     }
 
+    /// macro argument text (not visited as AST): apply the `self` renaming textually
+    fn mtext(&self, sp: Span) -> String {
+        let t = self.fx.text(sp).to_string();
+        if !self.rename_self {
+            return t;
+        }
+        let mut out = String::new();
+        let b: Vec<char> = t.chars().collect();
+        let mut i = 0;
+        while i < b.len() {
+            let is_id = |c: char| c.is_alphanumeric() || c == '_';
+            if i + 4 <= b.len() && b[i..i + 4].iter().collect::<String>() == "self" && (i == 0 || !is_id(b[i - 1])) && (i + 4 == b.len() || !is_id(b[i + 4])) {
+                out.push_str("self__m");
+                i += 4;
+            } else {
+                out.push(b[i]);
+                i += 1;
+            }
+        }
+        out
+    }
+
     fn rw_macro(&mut self, mac: &Macro, stmt: bool) {
         let name = path_str(&mac.path);
         let (lo, hi) = self.fx.rng(mac.span());
@@ -784,7 +811,7 @@ impl<'a, 'b> Rewriter<'a, 'b> {
             "panic" | "unimplemented" | "todo" | "unreachable" => self.edit(lo, hi, "vpanic()".to_string(), "R5"),
             "assert" | "debug_assert" => match args.as_ref().and_then(|a| a.first()) {
                 Some(c) => {
-                    let t = self.fx.text(c.span()).to_string();
+                    let t = self.mtext(c.span());
                     self.edit(lo, hi, format!("vassert({})", t), "R5")
                 }
                 None => self.errors.push(format!("line {}: cannot parse assert!", self.fx.line_of(lo))),
@@ -792,7 +819,7 @@ impl<'a, 'b> Rewriter<'a, 'b> {
             "assert_eq" | "assert_ne" | "debug_assert_eq" => match args.as_ref() {
                 Some(a) if a.len() >= 2 => {
                     let op = if name == "assert_ne" { "!=" } else { "==" };
-                    let t = format!("vassert({} {} {})", self.fx.text(a[0].span()), op, self.fx.text(a[1].span()));
+                    let t = format!("vassert({} {} {})", self.mtext(a[0].span()), op, self.mtext(a[1].span()));
                     self.edit(lo, hi, t, "R5")
                 }
                 _ => self.errors.push(format!("line {}: cannot parse {}!", self.fx.line_of(lo), name)),
@@ -883,6 +910,17 @@ impl<'a, 'b> Walker<'a, 'b> {
         }
         let (blo, _bhi) = self.fx.rng(block.span());
         rw.edit(blo, blo, "/*@SIG*/".to_string(), "M");
+        // `mut self` (by value) is not in the Verus dialect: fn f(mut self) { B }  ==>  fn f(self) { let mut self__m = self; B[self := self__m] }
+        if let Some(rc) = sig.receiver() {
+            if rc.reference.is_none() {
+                if let Some(m) = &rc.mutability {
+                    let (mlo, mhi) = self.fx.rng(m.span());
+                    rw.edit(mlo, mhi, String::new(), "R4");
+                    rw.edit(blo + 1, blo + 1, " let mut self__m = self;".to_string(), "R4");
+                    rw.rename_self = true;
+                }
+            }
+        }
         rw.visit_block(block);
         let params: Vec<String> = sig
             .inputs
